@@ -1084,7 +1084,12 @@ fn op_typed_request(case: &Value) -> Value {
     };
     let mut rq = format!("{} {} HTTP/1.1\r\nHost: replay\r\nConnection: close\r\n", method, target).into_bytes();
     if let Some(ct) = case["content_type"].as_str() {
-        rq.extend_from_slice(format!("Content-Type: {}\r\n", ct).as_bytes());
+        if ct == "non-ascii" {
+            // octets >= 0x80 are legal in a header value but HeaderValue::to_str refuses them
+            rq.extend_from_slice(b"Content-Type: application/json\xc3\xa9\r\n");
+        } else {
+            rq.extend_from_slice(format!("Content-Type: {}\r\n", ct).as_bytes());
+        }
     }
     if !body.is_empty() || method != "GET" {
         rq.extend_from_slice(format!("Content-Length: {}\r\n", body.len()).as_bytes());
